@@ -154,6 +154,26 @@ def open_tree(url, **backend_options):
     return ceos_alos2.open_alos2(url, backend_options=backend_options)
 
 
+class SetupViolation(Exception):
+    """raised while a check prepares its reference state when the code under test already breaks
+    the documented contract there (e.g. an ordinary well-formed product cannot be opened, the
+    index cache is not written where the docs say); carries the discrepancy, which is reported
+    like any other"""
+
+    def __init__(self, disc):
+        super().__init__(disc["kind"])
+        self.disc = disc
+
+
+def reference_open(url, what="reference open of a well-formed product", **backend_options):
+    """open + flatten for reference / base states: a failure here is a finding, not a harness error"""
+    try:
+        tree = open_tree(url, **backend_options)
+        return tree, flatten(tree)
+    except Exception as e:  # noqa: BLE001
+        raise SetupViolation(disc("exception", what, "a tree", exc_text(e))) from e
+
+
 # ----------------------------------------------------------------------------------------
 # flatten / compare
 # ----------------------------------------------------------------------------------------
